@@ -99,3 +99,28 @@ REPLAY["C14"] = replay_c01
 GENERIC_CONFIRM["C16"] = checks_reconn.confirm_fn
 CHECKS["C16"] = checks_reconn.run_check
 REPLAY["C16"] = replay_generic
+
+
+def replay_c18(prop, path):
+    import checks_locks
+    r = json.load(open(path))
+    case = r["case"]
+    if case.get("static"):
+        vh = build_vh()
+        _, mism = checks_locks.extracted_check(vh)
+        got = [m for m in mism if m["what"] == r["mismatch"]["what"]]
+    elif case.get("case"):
+        got = checks_locks.run_cases(build_vh(), [case["case"]])["mismatches"]
+    else:
+        got = checks_locks.run_cases(build_vh(race=True), [], stress_ms=5000, race=True)["mismatches"]
+    if got:
+        print("VIOLATION property=%s replay=%s" % (prop, path))
+        print("  " + json.dumps(got[0])[:600])
+        return 1
+    print("replay: the recorded mismatch does not occur on this tree")
+    return 0
+
+
+import checks_locks
+CHECKS["C18"] = checks_locks.run_check
+REPLAY["C18"] = replay_c18
